@@ -141,7 +141,10 @@ pub fn run_sweep(args: &Args, mut out: Out) {
         if day > last_day {
             continue;
         }
-        let t = SystemTime::UNIX_EPOCH + Duration::from_secs((day * 86400 + sod) as u64);
+        // the instant's sub-second part (none, tiny, half, and as close to the next second as a clock can report) never
+        // changes the text: rendering truncates
+        let nanos = [0u32, 0, 1, 500_000_000, 999_999_999, 999_999_900, 999_000_000][(k % 7) as usize];
+        let t = SystemTime::UNIX_EPOCH + Duration::new((day * 86400 + sod) as u64, nanos);
         let iso = catch(|| t.iso8601_utc()).unwrap_or_else(|()| "<panic>".into());
         out.ev(sid, "Text", json!({"user":"iso8601_utc","d":day,"sod":sod,"text":cps(&iso)}));
         let cookie = catch(|| format!("{}", Cookie::new("a", "b".try_into().unwrap()).with_expires(t))).unwrap_or_else(|()| "<panic>".into());
